@@ -53,10 +53,17 @@ pub const STARTS: &[Start] = &[
         len_thorough: 9,
     },
     Start {
-        name: "black to move first; rooks and kings shuffle, pawn move resets nothing in the engine",
+        name: "the two sides hold different castling rights while knights shuffle; rook moves change the rights",
+        start: "r3k2n/8/8/8/8/8/8/N3K2R w Kq - 0 1",
+        alphabet: &["a1b3", "b3a1", "a1c2", "c2a1", "h1g1", "g1h1", "h8g6", "g6h8", "h8f7", "f7h8", "a8b8", "b8a8"],
+        len_quick: 8,
+        len_thorough: 9,
+    },
+    Start {
+        name: "black to move first; rooks and kings shuffle, pawn moves in between",
         start: "r3k3/7p/8/8/8/8/P7/4K2R b Kq - 3 20",
         alphabet: &["a8b8", "b8a8", "e8e7", "e7e8", "h7h6", "h1g1", "g1h1", "e1e2", "e2e1", "a2a3"],
-        len_quick: 7,
+        len_quick: 6,
         len_thorough: 9,
     },
 ];
@@ -151,6 +158,7 @@ pub fn check_history(fl: &mut Option<Flounder>, cache: &RefCache, rep: &Report, 
         }
     }
     let f = fl.as_mut().unwrap();
+    let _job = crate::watch::enter(format!("C09 {} no-answer", sig_tail), format!("{}: no answer after {} s of wall time", sig_tail, crate::watch::LIMIT_S), args.clone());
     let r = guard(|| {
         f.verif_handle_command("ucinewgame");
         if let Some(pc) = &prev_cmd {
@@ -280,6 +288,7 @@ pub fn run(tier: &str, seed: u64, out: &str) {
         eprintln!("MACHINERY ERROR: {}", e);
         std::process::exit(2);
     }
+    crate::watch::start_default("C09", "model_checking", tier, seed, out);
     let cache = RefCache::new(200_000);
     let st = Stats {
         histories: AtomicU64::new(0),
